@@ -61,6 +61,9 @@ thread_local! { static MYGEN: Cell<u64> = const { Cell::new(0) }; }
 static G: StdMutex<Option<G>> = StdMutex::new(None);
 static CV: Condvar = Condvar::new();
 thread_local! { static ME: Cell<usize> = const { Cell::new(usize::MAX) }; }
+// depth of lock-protected regions of the code under test this thread is in (`cs enter/leave` notes): the det
+// controller must not de-schedule a thread that holds a real lock (the next taker would block in the OS)
+thread_local! { static NOYIELD: Cell<u32> = const { Cell::new(0) }; }
 
 // file filter: only events whose construction site is in one of these files are kept
 static FILTER: AtomicPtr<Vec<String>> = AtomicPtr::new(std::ptr::null_mut());
@@ -199,6 +202,9 @@ fn before(ev: &Ev) {
             let me = ME.get();
             if me == usize::MAX || !keep(ev.site.file()) {
                 return;
+            }
+            if NOYIELD.get() > 0 {
+                return; // inside a lock-protected region: the operation is logged (`after`) but is no schedule point
             }
             yield_point(me, St::AtPoint);
         }
@@ -359,6 +365,11 @@ fn note_raw(actor: String, kind: &'static str, what: &str) -> Raw {
 }
 
 fn note(kind: &'static str, what: &str) {
+    if kind == "cs" {
+        // lock-protected region entered / left (not logged)
+        NOYIELD.set(if what == "enter" { NOYIELD.get() + 1 } else { NOYIELD.get().saturating_sub(1) });
+        return;
+    }
     match MODE.load(Ordering::Relaxed) {
         MODE_DET => {
             let me = ME.get();
@@ -446,6 +457,38 @@ pub fn call(name: &str, a1: u64, a2: u64) {
 /// API `name` returned `res`
 pub fn ret(name: &str, res: u64) {
     api("ret", name, res, 0)
+}
+
+/// API `name` returned a two-word result (e.g. an `Option<Duration>` as secs / subsec-nanos)
+pub fn ret2(name: &str, a1: u64, a2: u64) {
+    api("ret", name, a1, a2)
+}
+
+// ---------------------------------------------------------------- virtual clock (det mode), driven by a scenario
+
+/// the virtual clock of the running det scenario (ns); `None` outside a det run / on a foreign thread
+pub fn clock() -> Option<u64> {
+    now()
+}
+/// set the virtual clock (must not go backwards: the code under test assumes a monotonic clock)
+pub fn clock_set(ns: u64) {
+    if MODE.load(Ordering::Relaxed) == MODE_DET && ME.get() != usize::MAX {
+        with(|c| {
+            assert!(ns >= c.vclock, "virtual clock must be monotonic");
+            c.vclock = ns
+        });
+    }
+}
+/// advance the virtual clock by `ns`, returns the new reading
+pub fn clock_advance(ns: u64) -> u64 {
+    if MODE.load(Ordering::Relaxed) == MODE_DET && ME.get() != usize::MAX {
+        with(|c| {
+            c.vclock += ns;
+            c.vclock
+        })
+    } else {
+        0
+    }
 }
 
 // ---------------------------------------------------------------- det controller
